@@ -203,3 +203,26 @@ func dumpQuery(vc *VC, o *Obl, dir string) string {
 	os.WriteFile(p, []byte(vc.queryText(o, false)), 0o644)
 	return p
 }
+
+// proveNow tries to establish guard => goal from the lines emitted so far with a
+// short solver call; used to prune infeasible alternatives while encoding
+// (e.g. an append that provably fits its backing array).
+func (vc *VC) proveNow(guard, goal string) bool {
+	if guard == "false" {
+		return true
+	}
+	key := fmt.Sprintf("%d|%s|%s", len(vc.lines), guard, goal)
+	if r, ok := vc.proveCache[key]; ok {
+		return r
+	}
+	o := &Obl{Name: "inline", Guard: guard, Goal: goal, At: len(vc.lines)}
+	text := vc.queryText(o, false)
+	ctx, cancel := context.WithTimeout(context.Background(), 3*time.Second)
+	defer cancel()
+	st, _, _ := runSolver(ctx, solverConfigs(2, 0)[0], text)
+	if vc.proveCache == nil {
+		vc.proveCache = map[string]bool{}
+	}
+	vc.proveCache[key] = st == "unsat"
+	return st == "unsat"
+}
